@@ -16,6 +16,7 @@ package rofsnotify
 
 import (
 	"context"
+	"fmt"
 
 	"github.com/fsnotify/fsnotify"
 	"github.com/samber/ro"
@@ -32,6 +33,13 @@ func NewFSListener(paths ...string) ro.Observable[fsnotify.Event] {
 
 		// Start listening for events.
 		go func() {
+			// a teardown that panics inside a terminal notification must not kill the process
+			defer func() {
+				if e := recover(); e != nil {
+					ro.OnUnhandledError(ctx, fmt.Errorf("%v", e))
+				}
+			}()
+
 			for _, path := range paths {
 				// Add a path.
 				err = watcher.Add(path)
